@@ -290,6 +290,8 @@ class Frames(Suite):
             op = {"op": "frames", "pkts": pkts, "frag": frag}
             if rng.random() < 0.25:
                 op["reuse"] = True      # one packet struct reused for every send
+            if rng.random() < 0.25 and "extra" not in op:
+                op["eof_with_data"] = True   # the underlying reader delivers the last bytes of the stream together with io.EOF
             if rng.random() < 0.15:
                 # a frame header that announces more bytes than follow (truncated / hostile stream)
                 # ... also with more than one pooled buffer (32 KiB) of bytes actually delivered behind the bogus length
